@@ -13,7 +13,7 @@ CHECKS = {
          "bounded stand-in only (enumerated instances), never counted as proved.",
          PYVC_NOTE + "Assumed: int.to_bytes/from_bytes, ascii encode/decode and slice clamping as axiomatised in pyvc/bytesalg.py; pickle/cloudpickle/orjson/pydantic round-trip plain data."),
  "C18": ("proof", "contract-based deductive verification of JobRouter (pre/post, whole-view frames, ownership class invariant with ghost owners) by pyvc + z3",
-         "JobRouter.__init__/spawn_job/maybe_update/put_result/get_result and next_uuid verified against contracts whose top clauses quote the property (newest timestamp wins, shutdown keeps progress, "
+         "JobRouter.__init__/spawn_job/maybe_update/put_result/get_result, server.handle_controller (every result a report carries is stored as uploaded, whatever else it carries) and next_uuid verified against contracts whose top clauses quote the property (newest timestamp wins, shutdown keeps progress, "
          "results stored per job+dataset, ids fresh, other jobs untouched); class invariant (one Job per id, one results dict per Job) established and preserved. The history claim follows by induction "
          "over the per-call contract (stated); all report histories up to the bound are also run through the real handle_controller/handle_fe (bounded stand-in).",
          PYVC_NOTE + "Assumed contracts: comms.get_context, router._spawn_subprocess (OS process start); zmq objects are opaque."),
